@@ -67,6 +67,12 @@ var witnesses = []witness{
 	{"dec", "p", "g1.v1.RW", strings.Repeat(`{"any":{"!type":"g1.v1.RW","value":`, 100) + `{}` + strings.Repeat(`}}`, 100)},
 	{"dec", "p", "g1.v1.RW", strings.Repeat(`{"any":{"!type":"g1.v1.RW","value":`, 101) + `{}` + strings.Repeat(`}}`, 101)},
 	{"dec", "n", "g1.v1.RW", strings.Repeat(`{"any":{"!type":"g1.v1.RW","value":`, 101) + `{}` + strings.Repeat(`}}`, 101)},
+	// seeded C03-m9: February 29 exists on 2000 / 2400 / 1996 (accepted exactly), not on 1900 / 2100 / 0100 (rejected)
+	{"dec", "n", "test.schema.v1.FullSchema", `{"date":"2000-02-29"}`},
+	{"dec", "n", "test.schema.v1.FullSchema", `{"date":"2400-02-29"}`},
+	{"dec", "n", "test.schema.v1.FullSchema", `{"date":"1900-02-29"}`},
+	{"dec", "n", "test.schema.v1.FullSchema", `{"date":"2100-02-29"}`},
+	{"dec", "n", "test.schema.v1.FullSchema", `{"date":"0100-02-29"}`},
 	// seeded C03-m8: 64-bit integers in float syntax above 2^53 (a reader going through float64 stores a neighbour)
 	{"dec", "n", "test.schema.v1.FullSchema", `{"sInt64":9007199254740993.0}`},
 	{"dec", "n", "test.schema.v1.FullSchema", `{"sInt64":1.8014398509481985e16}`},
@@ -81,6 +87,8 @@ var witnesses = []witness{
 	{"query", "n", "test.schema.v1.FullSchema", "sBar={\"barId\":\"a\"}"},
 	{"query", "n", "test.schema.v1.FullSchema", "wrappedOneof.wOneofString=a"},
 	{"query", "n", "test.schema.v1.FullSchema", "date=2020-13-01"},
+	{"query", "n", "test.schema.v1.FullSchema", "date=1900-02-29"},
+	{"query", "n", "test.schema.v1.FullSchema", "date=2000-02-29"},
 	{"query", "n", "test.schema.v1.FullSchema", ""},
 	{"query", "n", "g0.v1.All", "mString=a"},
 	// seeded C06-m7: index-like / empty segments in a dotted key (all rejected: a dotted path only enters objects and oneofs)
